@@ -102,13 +102,13 @@ class Engine(ExprMixin, StmtMixin, CallMixin):
             return True
         key = tuple(p.get_id() for p in self.st.pc)
         if key in self.feas_cache:
-            return self.feas_cache[key]
+            return self.feas_cache[key][0]
         # pruning only needs a subset of the path condition to be contradictory: the small conjuncts decide it cheaply
         s = z3.Solver()
         s.set('timeout', self.FEAS_TIMEOUT_MS)
         s.add(*[p for p in self.st.pc if _small(p, 150)])
         r = s.check() != z3.unsat
-        self.feas_cache[key] = r
+        self.feas_cache[key] = (r, list(self.st.pc))      # the terms are kept alive: z3 AST ids are only unique among live terms
         if not r:
             self.stats['pruned'] += 1
         return r
@@ -273,7 +273,7 @@ class Engine(ExprMixin, StmtMixin, CallMixin):
         key = (t.get_id(), mx)
         cache = eng.bound_cache
         if key in cache:
-            return cache[key]
+            return cache[key][0]
         # only entry symbols: uninterpreted constants created before the body ran (no '!' in the name)
         todo = [t]
         seen = set()
@@ -300,7 +300,7 @@ class Engine(ExprMixin, StmtMixin, CallMixin):
                     else:
                         lo = mid + 1
                 res = hi
-        cache[key] = res
+        cache[key] = (res, t)
         return res
 
     def alive_check(self, region, what, node=None):
@@ -424,7 +424,7 @@ class ClauseCtx:
         eng = self.eng
         key = (c.get_id(), tuple(p.get_id() for p in eng.st.pc))
         if key in eng.known_cache:
-            return eng.known_cache[key]
+            return eng.known_cache[key][0]
         small = [p for p in eng.st.pc if _small(p, 60)]
         s = z3.Solver()
         s.set('timeout', 1000)
@@ -434,7 +434,7 @@ class ClauseCtx:
             res = True
         elif s.check(c) == z3.unsat:
             res = False
-        eng.known_cache[key] = res
+        eng.known_cache[key] = (res, c, list(eng.st.pc))
         return res
 
     def upper_bound(self, term, mx):
